@@ -19,7 +19,8 @@
 (***************************************************************************)
 EXTENDS Naturals, Sequences, FiniteSets, TLC
 
-CONSTANTS MaxItems, Bug
+CONSTANTS MaxItems, Bug,
+          Poll      \* BOOLEAN: pulls that are requested and never run (Dangle) are explored
 
 Places == {"same", "other_scope", "outside", "other_task"}
 STREAM == 50          \* id standing for the stream's own scope / task group
@@ -151,7 +152,14 @@ Abandon ==
   /\ called' = called
   /\ obs' = O(<<"abandoned", 0, 0, 0, 0>>, FALSE, s1done, called, sp)
 
-Next == Pull \/ Release \/ EndSpawned \/ CancelPull \/ Close \/ Abandon
+(* a pull is REQUESTED and never runs a single step (the awaitable is made and dropped; a poll with `wait_for(..., 0)`
+   cancels it before it starts): nothing has happened to the stream *)
+Dangle ==
+  /\ Poll /\ Bound /\ sst \in {"fresh", "open"} /\ nops' = nops + 1
+  /\ UNCHANGED <<scen, pos, sst, s1done, called, sp>>
+  /\ obs' = O(<<"dangled", 0, 0, 0, 0>>, FALSE, s1done, called, sp)
+
+Next == Pull \/ Release \/ EndSpawned \/ CancelPull \/ Close \/ Abandon \/ Dangle
 Spec == Init /\ [][Next]_vars
 
 -----------------------------------------------------------------------------
